@@ -15,7 +15,7 @@ RULE = ("one evaluation = one (stack shape, construction route, operation): shap
 ASSUMPTIONS = ["siblings of an emitting/consuming sublayer inside the same group are unspecified by the statement: only 'at most once' is required of them",
                "for a deferred event only layers beyond the first receiving item are required to wait for the loop",
                "the deferred queue is shared by all stacks of a process; it is drained between cases"]
-REQUIRED = ["libstack_stacks", "libstack_ok", "libstack_events_up", "libstack_events_down", "emitter_stacks", "emitter_cycles", "emitter_ok", "own_stack_interface_lookups", "passthrough_compositions", "passthrough_ok", "earlier_stacks_rechecked", "earlier_stacks_intact", "shape_ops", "event_ops", "detached_ops", "helper_combos", "default_stack_combos", "interface_lookups", "groups_seen"]
+REQUIRED = ["first_login_stacks", "first_login_ok", "libstack_stacks", "libstack_ok", "libstack_events_up", "libstack_events_down", "emitter_stacks", "emitter_cycles", "emitter_ok", "own_stack_interface_lookups", "passthrough_compositions", "passthrough_ok", "earlier_stacks_rechecked", "earlier_stacks_intact", "shape_ops", "event_ops", "detached_ops", "helper_combos", "default_stack_combos", "interface_lookups", "groups_seen"]
 EXHAUSTIVE = None
 
 LOG = []
@@ -832,6 +832,45 @@ def library_stack_events(acc, r, n):
             pass
 
 
+def first_login_events(acc, r, n, prop=None):
+    """The library's complete default stack (any module selection) between a probe above the network layer and one above the
+    application, through a whole first login against the server double: passive login, key upload, the library's own disconnect
+    and reconnect. Every state event the network layer emits is seen exactly once above the whole stack, in order."""
+    from vf import world, stackkit
+    sels = list(stackkit.selections())
+    for k in range(n):
+        W = world.World(seed=r.randrange(1 << 30), strategy=r.choice(["uniform", "app-first", "newest"]), batch=r.choice([5, 20, 40]), wiring="full")
+        W.with_probes = True
+        A = "4911" + gen.s_from(r, gen.DIGITS, 7)
+        sel = r.choice(sels)
+        w = {"helper": "first-login-events", "selection": stackkit.sel_name(sel)}
+        try:
+            W.add_client(A, modules=sel)
+            W.script = [{"op": "connect", "who": A}, {"op": "wait-quiet"}]
+            if not W.run(max_steps=12000) or not W.clients[A].ready():
+                acc.inconc("first-login-events: the first login did not complete")
+                continue
+            c = W.clients[A]
+            low = [x.rsplit(".", 1)[-1] for x in c.probe_low.event_names() if x.rsplit(".", 1)[-1] in ("connected", "disconnected")]
+            top = [x.rsplit(".", 1)[-1] for x in c.probe_top.event_names() if x.rsplit(".", 1)[-1] in ("connected", "disconnected")]
+            acc.count("first_login_stacks")
+            acc.count("first_login_state_events", len(low))
+            acc.case(["fl", stackkit.sel_name(sel), k], nontrivial=True)
+            if len(low) < 3:
+                acc.inconc("first-login-events: fewer than three state events directly above the network layer: %s" % low)
+                continue
+            if top != low:
+                acc.violation("first-login-events:%s" % ("duplicate" if len(top) > len(low) else "lost" if len(top) < len(low) else "order"),
+                              "the network layer's state events %s were seen above the whole stack as %s" % (low, top), w)
+            else:
+                acc.count("first_login_ok")
+        except Exception as e:  # noqa
+            import traceback
+            acc.inconc("first-login-events: harness crashed: %s" % traceback.format_exc()[-500:])
+        finally:
+            W.close()
+
+
 def shards(tier, seed, nworkers):
     q = tier == "quick"
     specs = [{"kind": "helpers"}]
@@ -854,6 +893,7 @@ def run(spec, acc):
         library_passthrough_compositions(acc, gen.rng(seed, ID, "passthrough"), 400)
         library_emitter_cycles(acc, gen.rng(seed, ID, "emitter"), 150, stackmod)
         library_stack_events(acc, gen.rng(seed, ID, "libstack"), 120)
+        first_login_events(acc, gen.rng(seed, ID, "firstlogin"), 8)
         acc.sample({"helpers": "getProtocolLayers/getDefaultLayers x 16 flag combos, getDefaultStack x 32 x {no layer, layer}, positional args, pushDefaultLayers"})
         return
     if spec["kind"] == "exhaustive":
